@@ -89,7 +89,7 @@ def tyOfParserDt (dt : List Char) : Option Ty := Ty.all.find? fun t => (parserSt
 
 /-- `Xdr` declaration of a variable → `Dds` declaration (server side: what `dds()` is given) -/
 def ddsBase (name : List Char) (dims : List (List Char)) (ty : Ty) (shape : List Nat) : Dds.BaseV :=
-  ⟨name, npChar ty, shape.map Int.ofNat, dims⟩
+  ⟨name, npChar ty, shape.map Int.ofNat, dims, false⟩
 
 /-- one `BaseType` declared by the parsed DDS → the `Xdr` declaration the decoder runs with -/
 def baseOfDds (b : Dds.BaseV) : Option Tmpl :=
